@@ -9,7 +9,12 @@ rsync -a --exclude '.git' --exclude '__pycache__' --exclude '.hypothesis' --excl
 if [ "$patch" != "/dev/null" ]; then
   if ! patch -s -p1 -d "$d" < "$patch"; then echo "PATCH FAILED"; rm -rf "$d"; exit 3; fi
 fi
+# evidence files describe runs against /repo itself: a run against a patched copy must not leave its own behind
+here="$(cd "$(dirname "$0")/.." && pwd)"
+ev=$(mktemp -d /dev/shm/sfev.XXXXXX)
+cp -a "$here/evidence/." "$ev"/ 2>/dev/null
 VERIF_REPO="$d" "$@"
 rc=$?
-rm -rf "$d"
+cp -a "$ev/." "$here/evidence"/ 2>/dev/null
+rm -rf "$d" "$ev"
 exit $rc
